@@ -8,4 +8,6 @@ INVARIANT NamesUnique
 INVARIANT SelfSubscription
 INVARIANT InheritedKept
 INVARIANT ParamsOnce
+INVARIANT DiamondByMro
+INVARIANT MroSound
 CHECK_DEADLOCK FALSE
